@@ -292,6 +292,27 @@ def detectAndParse {β} (tok : List Char → Option β) (lines : List (List Char
     | some t => some t
     | none => detectAndParse tok lines ss
 
+/-! ## selecting and naming columns of a table (`load_table_v2(rename_cols={name: file column})`)
+
+`usecols` restricts the read to the requested file columns — pandas returns them in *file* order whatever the
+order of the request — and `rename(columns={file column: name})` names each one by the column it came from. -/
+
+/-- column `i` of a table given as rows -/
+def column {β} (t : List (List β)) (i : Nat) : List (Option β) := t.map (fun row => row[i]?)
+
+/-- the result: every requested name with the values of the file column it designates -/
+def selectCols {β} (t : List (List β)) (sel : List (String × Nat)) : List (String × List (Option β)) :=
+  sel.map (fun s => (s.1, column t s.2))
+
+def insertSorted (x : Nat) : List Nat → List Nat
+  | [] => [x]
+  | y :: ys => if x ≤ y then x :: y :: ys else y :: insertSorted x ys
+
+/-- a wrong variant (seeded defect C20-8): the columns come back in file order and are named *positionally* after
+the order of the request -/
+def selectColsPositional {β} (t : List (List β)) (sel : List (String × Nat)) : List (String × List (Option β)) :=
+  (sel.map (·.1)).zip (((sel.map (·.2)).foldr insertSorted []).map (column t))
+
 /-- a stand-in for `float(field)` used by the driver: accepts non-empty fields made of digits, sign,
 point and exponent letters, and returns the field verbatim (the harness converts it) -/
 def numericTok (t : List Char) : Option String :=
